@@ -82,8 +82,9 @@ func c17One(k c17Case, data []byte) (key, what, class string) {
 		}
 	}
 	bucket := "case" + exp
-	if exp == "2E" && len(enc) == 6 {
-		// specific signature: extended Le emitted as 2 bytes without the leading 00 that case 2E requires
+	if exp == "2E" && len(enc) == 6 && enc[0] == k.CLA && enc[1] == k.INS && enc[2] == k.P1 && enc[3] == k.P2 && enc[4] == byte(k.Le>>8) && enc[5] == byte(k.Le) {
+		// specific signature (and nothing else): header followed by exactly LeHi LeLo - the extended Le emitted as 2 bytes
+		// without the leading 00 that case 2E requires; any other 6-byte output gets its own key
 		return "cmd/case2E/le-field-without-leading-00", fmt.Sprintf("datalen=0 le=%d: encoded as %s (6 bytes); ISO 7816-4 case 2E is CLA INS P1 P2 00 LeHi LeLo (7 bytes)", k.Le, vc.Hex(enc)), ""
 	}
 	if k.DataLen >= 65280 {
